@@ -471,7 +471,8 @@ Inductive op :=
 | IT (sid : N)
 | IA (sid : N)
 | IM (sid : N)       (* a SOLICIT arrives while the session waits for AAA / creation: only its DUID is recorded *)
-| IC (sid vrf : N) (s4 o4 s6 : option N) (spd : option item) (o6 od : option N).
+| IC (sid vrf : N) (s4 o4 s6 : option N) (spd : option item) (o6 od : option N)
+| IE (sid : N).      (* lease expiry: cleanupSessions reaps the session *)
     (* component level: handleAAAResponse builds the allocator context from all AAA attributes before any pending
        packet is replayed (at function level ID / IS build it on first use, with their own family's attributes) *)
 
@@ -754,8 +755,13 @@ Definition step_is (v : variant) (st : state) (s : sess) (isreq : bool) (vrf : N
            (o6 od : option N) : list (state * out) :=
   step_is_core v st (mark_duid isreq (is_ctx s vrf s6 spd o6 od)) isreq.
 
-(* IPoE release sequences: handleRelease / cleanupSessions (ir = true) and handleSubscriberTerminate *)
-Definition step_rel (v : variant) (st : state) (s : sess) (ir : bool) : list (state * out) :=
+(* IPoE full-release sequences.  ir: the DHCPv4 provider's ReleaseLease(mac) runs; r6: the DHCPv6 provider's
+   ReleaseLease(duid) runs.
+     handleRelease (DHCPRELEASE, session deleted):  ir = true,  r6 = the session recorded a DUID
+     handleSubscriberTerminate (admin):             ir = false, r6 = false
+     cleanupSessions (lease expiry reaper):         ir = true,  r6 = false - the reaper releases all three families
+       by address and the DHCPv4 lease, deletes the session and its image, and never calls the DHCPv6 provider *)
+Definition step_rel (v : variant) (st : state) (s : sess) (ir r6 : bool) : list (state * out) :=
   let r0 := st_reg st in
   let r4s := match s_b4 s with
              | Some a => release_ip v F4 (addr_item a) (s_vrf s) (s_id s) r0
@@ -774,7 +780,7 @@ Definition step_rel (v : variant) (st : state) (s : sess) (ir : bool) : list (st
                  end in
       map (fun r4 =>
              (* the DHCPv6 lease is released through the DUID the session recorded, if any *)
-             let '(q', r5) := if ir && s_ipcp s then prov6_release v (p6 pr') r4 (s_mac s) (s_id s) else (p6 pr', r4) in
+             let '(q', r5) := if r6 then prov6_release v (p6 pr') r4 (s_mac s) (s_id s) else (p6 pr', r4) in
              (mkState r5 (put_sess (set_live s false) (st_sess st)) (unckpt (with_p6 pr' q') (s_id s)), ORel ir)) rds)).
 
 (* handleRelease of a unified session whose DHCPv6 bindings stay: only IPv4 is given back, the session lives on
@@ -890,12 +896,12 @@ Definition step (v : variant) (st : state) (o : op) : list (state * out) :=
   | IR sid =>
       match find_sess sid st with
       | Some s => if negb (s_ppp s) && s_live s
-                  then (if v6bound s then step_rel4p v st s else step_rel v st s true) else skip st
+                  then (if v6bound s then step_rel4p v st s else step_rel v st s true (s_ipcp s)) else skip st
       | None => skip st
       end
   | IT sid =>
       match find_sess sid st with
-      | Some s => if negb (s_ppp s) && s_live s then step_rel v st s false else skip st
+      | Some s => if negb (s_ppp s) && s_live s then step_rel v st s false false else skip st
       | None => skip st
       end
   | IA sid =>
@@ -910,6 +916,11 @@ Definition step (v : variant) (st : state) (o : op) : list (state * out) :=
       | Some s => if negb (s_ppp s)
                   then [(mkState (st_reg st) (put_sess (mark_duid false s) (st_sess st)) (st_prov st), OSkip)]
                   else skip st
+      | None => skip st
+      end
+  | IE sid =>
+      match find_sess sid st with
+      | Some s => if negb (s_ppp s) && s_live s then step_rel v st s true false else skip st
       | None => skip st
       end
   | IC sid vrf s4 o4 s6 spd o6 od =>
